@@ -97,8 +97,14 @@ def experiment(res, nmodels, nsteps_all):
     perm = run(perm_idx)
     dup = run([1, 1, 0])
     other = run([0, 3, 4])  # world 0 next to entirely different neighbours
+    # a larger batch (launch geometry that scales with nworld: reduction groups, tiles): world w of 9 vs alone
+    big_short = run(list(range(K)) * 3, short)
     for w in range(K):
       one = run([w], short)
+      dfb = BK.first_diff_tol(BK.snapshot(big_short, w + 2 * K), BK.snapshot(one, 0), 2e-5)
+      res.count()
+      if dfb is not None:
+        fails.append({"xml": xml, "world": w, "versus": "alone vs slot %d of a 9-world batch" % (w + 2 * K), "field": dfb[0], "maxdiff": dfb[1], "nsteps": short, "seed": vlib.seed(), "model_index": k})
       a = BK.snapshot(full, w)
       a_short = BK.snapshot(full_short, w)
       cmp = [(BK.snapshot(perm, perm_idx.index(w)), f"permuted{perm_idx}", True)]
